@@ -14,7 +14,8 @@ LEVEL = "exploration"
 RULE = ("Hypothesis draws TT tensors with controlled decay of the bond spectra (d=2 with an explicitly prescribed spectrum: "
         "geometric / clustered / repeated / gapped; d>2 gauss cores with per-bond column decay 10^(-decay*j)), global scale "
         "10^[-12,12], accuracy e log-uniform in [1e-12,0.9] or placed at (1 +- 1e-3) x a threshold where a bond rank changes, cap r "
-        "in {1..max rank, 1e12, non-integer}, and all four (is_eigh, use_stab) combinations; oracle = LAPACK SVD of the input "
+        "in {1..max rank, 1e12, non-integer}, and all four (is_eigh, use_stab) combinations; in half of the cases the same tensor is handed over "
+        "with one core times 2^s and another times 2^-s, s in +-{520,560,600} (exact; raw-core Gram products leave the float range); oracle = LAPACK SVD of the input "
         "unfoldings (tails). add_many: lists of tensors/numbers with trunc_freq 1..4 against a mirrored error recursion. "
         "Non-trivial = at least one bond rank actually reduced; distinct by SHA-1 of the case.")
 TOLERANCES = ("err <= e||Y||(1+1e-9)+floor; err^2 <= sum_k tail_k(rank_k)^2 (1+1e-9) + floor^2; floor_svd = 64 eps R d ||Y||, "
@@ -108,7 +109,25 @@ def trunc_cases(draw, tier):
             "ksel": draw(st.integers(0, 7)), "qsel": draw(st.integers(0, 15)), "side": draw(st.sampled_from([-1, 1])),
             "cap": draw(st.sampled_from(["none", "none", "int", "int", "float", "one"])), "capv": draw(st.integers(1, 10)),
             "is_eigh": draw(st.booleans()), "use_stab": draw(st.booleans())}
+    # the same tensor with one core times 2**s and another times 2**-s (exact): nothing about the tensor, its norm or its unfolding spectra
+    # changes, but any quantity formed from the raw cores one at a time (a Gram product, a core norm) leaves the float range
+    case["balance"] = draw(st.sampled_from([None, None, None, None, None, 520, -520, 560, 600, -600]))
+    case["bal_at"] = [draw(st.integers(0, 7)), draw(st.integers(1, 7))]
     return case
+
+
+def unbalance(Y, case, ctx):
+    s = case.get("balance")
+    if not s or case["T"].get("Y", {}).get("store"):
+        return Y
+    d = len(Y)
+    i = case["bal_at"][0] % d
+    j = (i + 1 + (case["bal_at"][1] - 1) % (d - 1)) % d
+    ctx.label("unbalanced_cores", f"unbalanced_by_2^{abs(s)}")
+    out = [G.copy() for G in Y]
+    out[i] = np.ldexp(out[i], s)
+    out[j] = np.ldexp(out[j], -s)
+    return out
 
 
 def pick_e(case, F, nrm, d, ctx):
@@ -194,7 +213,7 @@ def prop_truncate(case, ctx):
         ctx.label("scale>1e3")
     if 0 < nrm < 1e-3:
         ctx.label("scale<1e-3")
-    Z = ctx.lib(teneva.truncate, as_stored(Y, case["T"].get("Y"), ctx), e, cap, use_stab=use_stab, is_eigh=is_eigh)
+    Z = ctx.lib(teneva.truncate, as_stored(unbalance(Y, case, ctx), case["T"].get("Y"), ctx), e, cap, use_stab=use_stab, is_eigh=is_eigh)
     if any(not np.any(G) for G in Y):
         # an exactly zero tensor stored with ranks > 1 (a core is identically zero): the budget is 0 and every tail energy is exactly 0,
         # which meets it (the documented test is "<="), so all ranks collapse to 1 - an exact tie that involves no rounding
